@@ -19,7 +19,8 @@ def handlers : List (String × (Json → Except String Json)) := [
   ("namesBatch", SqlLineage.IO.Names.handleBatch),
   ("namesOf", SqlLineage.IO.Names.handleOf),
   ("namesSrc", SqlLineage.IO.Names.handleSrc),
-  ("namesSites", SqlLineage.IO.Names.handleSites)
+  ("namesSites", SqlLineage.IO.Names.handleSites),
+  ("namesEq", SqlLineage.IO.Names.handleEq)
 ]
 
 def handleLine (line : String) : String :=
